@@ -21,7 +21,10 @@ import time
 
 import vk
 
-FAMILY = "funcsB"
+# VERIF_FUNCSB_ONLY=<property id> restricts a run to the parts that decide that property (used by the self-tests; such a
+# partial result is cached under its own name so that it is never taken for a full family result)
+ONLY = os.environ.get("VERIF_FUNCSB_ONLY", "")
+FAMILY = "funcsB" if ONLY not in ("C16", "C18", "C48") else "funcsB_" + ONLY
 SPEC_DIR = os.path.join(vk.SPEC, "funcsB")
 PROPS = ["C16", "C18", "C48"]
 
@@ -441,6 +444,8 @@ def run_family(tier, seed, binary=None):
         jobs.append(("keys", "keys-w%d" % w, lambda w=w: keys_part(tier, seed, binary, workdir, w)))
     jobs.append(("ns", "clientns", lambda: ns_part(tier, seed, binary, workdir, sz)))
     jobs.append(("merkle", "merkle", lambda: merkle_part(tier, seed, binary, workdir, sz)))
+    if FAMILY != "funcsB":
+        jobs = [j for j in jobs if j[1].startswith(PARTS_OF[ONLY])]
     results, errors = {}, []
 
     def runner(job):
